@@ -54,3 +54,18 @@ prop('C20', units=['syn'], level='proof', relevant=r'^unit::(completion::|lexer:
                   '(symbol map, rowan) and that the copy loops offer exactly the table entries (ref patterns are unsupported by Verus; assumed).'),
      assumptions=SYN_ASSUME + ['complete_* copy loops are external_body: assumed to offer exactly the entries of their const table plus the literal snippet labels',
                                'const item types are rewritten from &str to &\'static str (what rustc elides) and the fn-local consts are hoisted to module level (R10)'])
+
+prop('C15', units=['pps'], level='proof',
+     explanation=('Verus proves a step simulation between the real PreProcessor<T>::next_token (for an arbitrary inner token stream T whose contract '
+                  'exposes its token sequence as ghost state) and a reference evaluator written from the property statement (frames with taken/seen_else, '
+                  'a token is delivered iff every open frame is enabled, #define only takes effect when delivered, disabled text is skipped with its own '
+                  'nesting and produces nothing, unterminated conditional and directive without name are errors): whenever the real state is related to a '
+                  'reference state, the returned kind is exactly the item the reference delivers and the states stay related; for every well-nested '
+                  'arrangement, any nesting depth, any macro set. The depth-counting skip loop is tied to the reference by the invariant '
+                  'run_off(i0,0,f) == run_off(i,depth-1,f). Malformed (not well-nested) inputs are outside the claim, as in the property.'),
+     assumptions=['Verus/Z3/rustc sound; extraction faithful (round-trip audit)',
+                  'the inner stream is deterministic: eat() delivers the kinds of a fixed token sequence, cursor() the start offset of the next token, text(a..b) the text of the token between two consecutive offsets (assumed trait contract; holds for the real Lexer by construction but is not proved for it)',
+                  'HashSet<EcoString> obeys vstd\'s key model; a borrowed &str key is contained iff a member has that text; equal text means equal key',
+                  '&str -> EcoString conversion keeps the text (IntoSpec axiom)',
+                  'the TokenStream impl block of PreProcessor (pure delegations) is dropped from this unit; it is verified in unit SYN',
+                  'no parse-level claim: that disabled text produces no declarations/diagnostics follows because its tokens are never delivered (they reach the parser as one PreProcessor trivia token, proved in SYN/C01)'])
